@@ -46,6 +46,7 @@ func propC19(w *World, r *Report) {
 	r.Floor("tokensep", 12)
 	RunPrinterKeywords(w, r, []string{"opentype/gtab/builder.ExplainGsub", "opentype/gtab/builder.ExplainGpos"}, "opentype/gtab/builder.Parse")
 	r.Floor("keywords", 8)
+	RunRangeStart(w, r, fns)
 	for _, a := range boundsAssumptions {
 		r.Assumes(a)
 	}
